@@ -9,8 +9,8 @@ import random
 
 NAMES = ['x', 'y', 'z']
 NODE_DEFAULT = dict(kind='', fn=0, k=0, tgt=[], e=0, body=[], orelse=[], final=[], handlers=[], name='', f=0,
-                    exc=0, args=[], form='', nch=0)
-EXPR_DEFAULT = dict(kind='', k=0, reads=[], args=[], name='')
+                    exc=0, args=[], form='', nch=0, attr='')
+EXPR_DEFAULT = dict(kind='', k=0, reads=[], args=[], name='', attr='')
 JUMPS = ('break', 'continue', 'return', 'raise')
 BINOPS = dict(add='+', sub='-', mul='*', lt='<', le='<=', gt='>', ge='>=', eq='==', ne='!=')
 
@@ -52,6 +52,13 @@ class Builder:
     def I(self, reads=()):
         return self.expr(kind='I', k=self.newk(), reads=list(reads))
 
+    def attr(self, base, attr):
+        return self.expr(kind='attr', name=base, attr=attr)
+
+    def setattr_node(self, fn, base, attr, value_expr):
+        e = self.expr(kind='seq2', args=[value_expr, self.expr(kind='name', name=base)])
+        return self.node(kind='setattr', fn=fn, name=base, attr=attr, e=e)
+
     def finish(self):
         return finish_program(dict(nodes=self.nodes, exprs=self.exprs, fns=self.fns))
 
@@ -66,7 +73,7 @@ def binds(p, fid):
     out = set(p['fns'][fid - 1]['params'])
     for d in p['nodes']:
         if d['fn'] == fid:
-            if d['kind'] in ('assign', 'for', 'call', 'del'):
+            if d['kind'] in ('assign', 'for', 'call', 'del', 'newobj'):
                 out |= set(d['tgt'])
             if d['kind'] == 'with' and d['name']:
                 out.add(d['name'])
@@ -113,6 +120,12 @@ def finish_program(p):
                 names.add(h['name'])
                 hnames.add(h['name'])
     p['hnames'] = sorted(hnames)
+    attrs = {d['attr'] for d in p['nodes'] if d.get('attr')} | {x['attr'] for x in p['exprs'] if x.get('attr')}
+    p['attrs'] = sorted(attrs) or ['v']
+    for d in p['nodes']:
+        d.setdefault('attr', '')
+    for x in p['exprs']:
+        x.setdefault('attr', '')
     for x in p['exprs']:
         names |= set(x['reads'])
         if x['name']:
@@ -302,6 +315,10 @@ def r_expr(p, e):
         return '%s(%s)' % (k, ', '.join([str(x['k'])] + x['reads']))
     if k == 'name':
         return x['name']
+    if k == 'attr':
+        return '%s.%s' % (x['name'], x['attr'])
+    if k == 'seq2':
+        return r_expr(p, x['args'][0])
     if k == 'const':
         return str(x['k'])
     if k == 'none':
@@ -339,6 +356,10 @@ def r_stmt(p, n, ind, out):
         emit('%s = %s' % (', '.join(d['tgt']), r_expr(p, d['e'])))
     elif k == 'expr':
         emit(r_expr(p, d['e']))
+    elif k == 'newobj':
+        emit('%s = O()' % d['tgt'][0])
+    elif k == 'setattr':
+        emit('%s.%s = %s' % (d['name'], d['attr'], r_expr(p, d['e'])))
     elif k == 'if':
         emit('if %s:' % r_expr(p, d['e']))
         r_block(p, d['body'], ind + 1, out)
@@ -441,6 +462,8 @@ def enc(v):
         return ['i', v, 0]
     if isinstance(v, IList):
         return ['l', v.serial, len(v)]
+    if isinstance(v, Obj):
+        return ['o', v._serial, 0]
     if isinstance(v, E1):
         return ['x', 1, 0]
     if isinstance(v, E2):
@@ -454,6 +477,10 @@ class IList(list):
     serial = 0
 
 
+class Obj:
+    """A plain object with attribute state; _serial = order of creation within the run (= heap address in the spec)."""
+
+
 def _no_directive(**kw):
     return None
 
@@ -465,6 +492,7 @@ class Run:
         self.dec = list(decisions)
         self.di = 0
         self.log = []
+        self.nobj = 0
 
     def nextdec(self):
         if self.di >= len(self.dec):
@@ -489,6 +517,12 @@ class Run:
         r.serial = s
         return r
 
+    def O(self):
+        self.nobj += 1
+        o = Obj()
+        o._serial = self.nobj
+        return o
+
     def CM(self, k):
         run = self
 
@@ -503,7 +537,7 @@ class Run:
         return _CM()
 
     def ns(self):
-        return dict(T=self.T, D=self.D, I=self.I, CM=self.CM, E1=E1, E2=E2, set_loop_options=_no_directive)
+        return dict(T=self.T, D=self.D, I=self.I, CM=self.CM, O=self.O, E1=E1, E2=E2, set_loop_options=_no_directive)
 
 
 def main_args(p, inp=None):
@@ -527,6 +561,8 @@ def outcome(fn, args):
         return ['exc', 'RecursionError']
     except TypeError as e:
         return ['exc', 'TypeError']
+    except AttributeError as e:
+        return ['exc', 'AttributeError']
     except Exception as e:      # anything else is reported verbatim and never equals a specified outcome
         return ['exc', 'OTHER:%s:%s' % (type(e).__name__, str(e)[:120])]
 
@@ -546,7 +582,7 @@ def spec_outcome(rec):
         return ['ret', o[1]]
     if o[1][0] == 'x':
         return ['exc', 'E%d' % o[1][1]]
-    return ['exc', 'NameError' if o[1][1] == 1 else 'TypeError']
+    return ['exc', {1: 'NameError', 2: 'TypeError', 3: 'AttributeError'}[o[1][1]]]
 
 
 def same_observation(rec, res):
@@ -566,18 +602,23 @@ if __name__ == '__main__':
 class PureGen:
     """Side-effect-free, total programs over small ints: every variable is assigned before any read."""
 
-    def __init__(self, rnd, maxdepth=3, closures=True):
+    def __init__(self, rnd, maxdepth=3, closures=True, objects=True, closure_heavy=False):
+        self.closure_heavy = closure_heavy
         self.r = rnd
         self.b = Builder()
         self.maxdepth = maxdepth
         self.closures = closures
+        self.objects = objects and rnd.random() < 0.5      # attribute state o.v / o.w that exists before every statement
         self.vars = ['x', 'y', 'z']
         self.loopvars = 0
 
     def atom(self, scope):
         b = self.b
-        if self.r.random() < 0.3:
+        q = self.r.random()
+        if q < 0.3:
             return b.expr(kind='const', k=self.r.choice([0, 1, 1, 2, 3]))
+        if q < 0.5 and self.objects:
+            return b.attr('o', self.r.choice(['v', 'w']))
         return b.expr(kind='name', name=self.r.choice(scope))
 
     def arith(self, scope, depth=0):
@@ -607,8 +648,12 @@ class PureGen:
     def stmt(self, fn, scope, depth, inloop):
         b, r, N = self.b, self.r, self.b.nodes
         q = r.random()
+        if self.closure_heavy and fn == 1 and depth <= 1 and len(b.fns) < 4 and q < 0.3:
+            q = 0.99       # go to the closure production
+        if q < 0.12 and self.objects:
+            return b.setattr_node(fn, 'o', r.choice(['v', 'w']), self.arith(scope))
         if q < 0.38 or depth >= self.maxdepth:
-            return b.node(kind='assign', fn=fn, tgt=[r.choice(self.vars)], e=self.arith(scope))
+            return b.node(kind='assign', fn=fn, tgt=[self.tgt(fn)], e=self.arith(scope))
         if q < 0.58:
             i = b.node(kind='if', fn=fn)
             N[i - 1]['e'] = self.test(scope)
@@ -644,7 +689,11 @@ class PureGen:
             return b.node(kind=r.choice(['break', 'continue']), fn=fn)
         if q < 0.94:
             return b.node(kind='return', fn=fn, e=self.arith(scope))
-        if self.closures and depth <= 1 and len(b.fns) < 3:
+        sibs = [i + 1 for i, f in enumerate(b.fns) if fn != 1 and f['parent'] == b.fns[fn - 1]['parent'] and i + 1 < fn]
+        if sibs and r.random() < 0.5:      # a local function calling an earlier sibling: closures reached indirectly
+            g = r.choice(sibs)
+            return b.node(kind='call', fn=fn, name=b.fns[g - 1]['name'], form='assign', args=[r.choice(scope)], tgt=[self.tgt(fn)])
+        if self.closures and depth <= 1 and len(b.fns) < 4:
             fid = b.fn('g%d' % (len(b.fns) + 1), ['p'], fn)
             if r.random() < 0.4:
                 b.fns[fid - 1]['nonlocals'] = [r.choice(self.vars)]
@@ -653,9 +702,35 @@ class PureGen:
                 body.append(b.node(kind='return', fn=fid, e=self.arith(scope + ['p'])))
             b.fns[fid - 1]['body'] = body
             d = b.node(kind='def', fn=fn, name=b.fns[fid - 1]['name'], f=fid)
-            c = b.node(kind='call', fn=fn, name=b.fns[fid - 1]['name'], form='assign', args=[r.choice(scope)], tgt=[r.choice(self.vars)])
-            return ('seq', [d, c])
-        return b.node(kind='assign', fn=fn, tgt=[r.choice(self.vars)], e=self.arith(scope))
+            callee = b.fns[fid - 1]['name']
+            seq = [d]
+            if r.random() < (0.5 if self.closure_heavy else 0.25):      # call through an alias while the function's own name may be dead
+                seq.append(b.node(kind='assign', fn=fn, tgt=['k'], e=b.expr(kind='name', name=callee)))
+                callee = 'k'
+            if r.random() < (0.8 if self.closure_heavy else 0.5):   # the call happens later, after a statement that may rebind what the closure reads
+                reads = sorted({x['name'] for x in b.exprs if x['kind'] == 'name' and x['name'] in self.vars}) or self.vars
+                seq.append(self.stmt_simple(fn, scope, depth, inloop, prefer=reads if self.closure_heavy else None))
+            seq.append(b.node(kind='call', fn=fn, name=callee, form='assign', args=[r.choice(scope)], tgt=[self.tgt(fn)]))
+            return ('seq', [x for y in seq for x in (y[1] if isinstance(y, tuple) else [y])])
+        return b.node(kind='assign', fn=fn, tgt=[self.tgt(fn)], e=self.arith(scope))
+
+    def tgt(self, fn):
+        """Assignment target: in a nested function only its nonlocal names or a private temporary (so that the other
+        variables it mentions are reads of the enclosing function's variables, i.e. the function is a closure)."""
+        if fn == 1:
+            return self.r.choice(self.vars)
+        f = self.b.fns[fn - 1]
+        return self.r.choice(list(f['nonlocals']) * 2 + ['t%d' % fn])
+
+    def stmt_simple(self, fn, scope, depth, inloop, prefer=None):
+        b, r, N = self.b, self.r, self.b.nodes
+        tgt = r.choice(prefer or self.vars)
+        if r.random() < (0.8 if prefer else 0.5):
+            i = b.node(kind='if', fn=fn)
+            N[i - 1]['e'] = self.test(scope)
+            N[i - 1]['body'] = [b.node(kind='assign', fn=fn, tgt=[tgt], e=self.arith(scope))]
+            return i
+        return b.node(kind='assign', fn=fn, tgt=[tgt], e=self.arith(scope))
 
     def program(self, lo=2, hi=4):
         b = self.b
@@ -663,11 +738,24 @@ class PureGen:
         scope = self.vars + ['a', 'b']
         body = [b.node(kind='assign', fn=1, tgt=[v], e=b.expr(kind=k, **kw)) for v, k, kw in
                 (('x', 'name', dict(name='a')), ('y', 'const', dict(k=0)), ('z', 'const', dict(k=1)))]
+        if self.objects:
+            body.append(b.node(kind='newobj', fn=1, tgt=['o']))
+            body.append(b.setattr_node(1, 'o', 'v', b.expr(kind='name', name='b')))
+            body.append(b.setattr_node(1, 'o', 'w', b.expr(kind='const', k=2)))
         body += self.block(1, scope, 0, False, lo=lo, hi=hi)
         if b.nodes[body[-1] - 1]['kind'] != 'return':
-            body.append(b.node(kind='return', fn=1, e=b.expr(kind='add', args=[
-                b.expr(kind='add', args=[b.expr(kind='name', name='x'), b.expr(kind='mul', args=[b.expr(kind='name', name='y'), b.expr(kind='const', k=3)])]),
-                b.expr(kind='mul', args=[b.expr(kind='name', name='z'), b.expr(kind='const', k=7)])])))
+            # the result observes a random non-empty subset of the variables: what is not observed is dead at the end,
+            # so liveness mistakes of the converter are not masked by a "return everything" epilogue
+            terms = [(b.expr(kind='name', name=v), w) for v, w in (('x', 1), ('y', 3), ('z', 7)) if self.r.random() < 0.55]
+            if self.objects:
+                terms += [(b.attr('o', at), w) for at, w in (('v', 11), ('w', 13)) if self.r.random() < 0.6]
+            if not terms:
+                terms = [(b.expr(kind='name', name=self.r.choice(self.vars)), 1)]
+            total = None
+            for e, w in terms:
+                t = b.expr(kind='mul', args=[e, b.expr(kind='const', k=w)])
+                total = t if total is None else b.expr(kind='add', args=[total, t])
+            body.append(b.node(kind='return', fn=1, e=total))
         b.fns[0]['body'] = body
         p = b.finish()
         p['pure'] = 1
